@@ -8,7 +8,8 @@ import spec
 from spec import segs
 
 def k_r2(base, ref):
-    """class K_R2: an empty segment that is not the last one, in the reference path or (merge branch) in the base directory"""
+    """class K_R2 = exactly the complement of the hypotheses of theorem C06_resolution_is_rfc_partial: an empty segment that is not the last one
+    in the reference path, or -- in the merge branch -- in the base path"""
     B = spec.parse(base); Rf = spec.parse(ref)
     def inner_empty(p):
         s = segs(p)
@@ -16,13 +17,7 @@ def k_r2(base, ref):
     if inner_empty(Rf[2]):
         return True
     if Rf[0] is None and Rf[1] is None and Rf[2] != b'' and not Rf[2].startswith(b'/'):
-        d = B[2][:B[2].rfind(b'/') + 1]
-        if any(x == b'' for x in segs(d)[:-1]) or d.startswith(b'//') or b'//' in d:
-            return True
-        # merged path whose normal form starts with an empty segment
-        m = spec.merge(B, Rf[2])
-        if any(x == b'' for x in segs(m)[:-1]):
-            return True
+        return inner_empty(B[2])
     return False
 
 def main():
